@@ -46,7 +46,7 @@ func genC20(t *rapid.T) c20Case {
 	for r := 0; r < nr; r++ {
 		var ks []c20KDC
 		for i, n := 0, rapid.IntRange(1, 3).Draw(t, "nkdcs"); i < n; i++ {
-			b := rapid.SampledFrom([]string{"reply", "reply", "reply", "reply-keep-open", "partial", "oversized", "close", "silent", "refuse"}).Draw(t, "behaviour")
+			b := rapid.SampledFrom([]string{"reply", "reply", "reply", "reply-keep-open", "partial", "oversized", "wrap-prefix", "close", "silent", "refuse"}).Draw(t, "behaviour")
 			if (b == "silent" || b == "partial") && slow >= 1 {
 				b = "close" // keep the number of 5-second waits per case small
 			}
